@@ -30,6 +30,7 @@ def scale_fns(sc):
 
 def bank_cfg(rng, kind=None, max_filts=40, gammatone_scope_c07=False):
     rate = int(rng.choice(RATES))
+    frac_rate = False
     kind = kind or str(rng.choice(CLASSES))
     nf = int(rng.integers(1, max_filts + 1))
     if rng.random() < 0.03:
@@ -48,6 +49,10 @@ def bank_cfg(rng, kind=None, max_filts=40, gammatone_scope_c07=False):
         # inside the documented 1 Hz leeway above the Nyquist frequency: accepted, and the range ends at Nyquist
         hi = rate / 2 + float(rng.choice([1.0, 0.5, float(rng.uniform(0, 1))]))
     cfg = {"name": kind, "num_filts": nf, "sampling_rate": rate, "low_hz": lo, "high_hz": hi}
+    if hi is not None and hi < rate // 2 - 2 and rate % 2 == 0 and rng.random() < 0.06:
+        # a sampling rate that is no whole number (44100 / 8, a resampled recording), as a Python float or a NumPy one
+        cfg["sampling_rate"] = rate + float(rng.choice([0.5, 0.25, 0.75]))
+        frac_rate = True
     if kind != "fbank":
         cfg["scaling_function"] = sc
     if kind in ("tri", "fbank"):
@@ -62,6 +67,10 @@ def bank_cfg(rng, kind=None, max_filts=40, gammatone_scope_c07=False):
         cfg["max_centered"] = bool(rng.integers(2))
         cfg["scale_l2_norm"] = False if gammatone_scope_c07 else bool(rng.random() < 0.4)
         cfg["erb"] = bool(rng.integers(2))
+    if frac_rate:
+        if rng.random() < 0.6:
+            cfg["_kinds"] = {"sampling_rate": "np.float64"}
+        return cfg
     if rng.random() < 0.25:
         # the same numbers handed over as other numeric types (applied by gen.build_bank; the dict itself stays JSON-able)
         if rng.random() < 0.6:
@@ -72,7 +81,7 @@ def bank_cfg(rng, kind=None, max_filts=40, gammatone_scope_c07=False):
         kinds = {"num_filts": str(rng.choice(["np.int64", "np.int32"])), "sampling_rate": str(rng.choice(["float", "np.int64", "np.float64"]))}
         for k in ("low_hz", "high_hz"):
             if cfg[k] is not None:
-                kinds[k] = str(rng.choice(["int", "np.int64", "np.int32"])) if float(cfg[k]).is_integer() else "np.float64"
+                kinds[k] = str(rng.choice(["int", "np.int64", "np.int32", "np.int16", "np.uint16"])) if float(cfg[k]).is_integer() else "np.float64"
         # ... and the flags as NumPy booleans or as 0 / 1 (no further random draws: tied to the choice above)
         for k in ("analytic", "erb", "scale_l2_norm", "max_centered"):
             if k in cfg:
